@@ -29,8 +29,16 @@ WrongIn(f, inp) ==
     IF f[1] \in DOMAIN inp
     THEN (f[2] = "n" /\ ~NumEq(inp[f[1]], f[3])) \/ (f[2] = "b" /\ inp[f[1]] # f[3])
     ELSE (f[2] = "n" /\ Strip(f[3]) # <<>>) \/ (f[2] = "b" /\ f[3] # <<>> /\ \E i \in 1..Len(f[3]) : f[3][i] # 0)
+\* parameter data the library builds for the data-in direction (C06): same judgement with the data-in parsers
+JudgeBuilt(e) ==
+    IF e.exc # "" THEN {<<"Constructible", e.exc>>}
+    ELSE (IF ~Okay(e.fmt, e.bytes) THEN {<<"HonestLengths", "">>} ELSE {})
+         \cup LET bad == {f \in Parse(e.fmt, e.bytes) : WrongIn(f, e.in)} IN
+              IF bad = {} THEN {} ELSE {<<"ValuePlacement", ToJson([paths |-> {f[1] : f \in bad}])>>}
+
 JudgeOut(e) ==
-    IF e.fmt \notin OutFormats THEN {<<"UnknownFormat", e.fmt>>}
+    IF e.fmt \in Formats THEN JudgeBuilt(e)
+    ELSE IF e.fmt \notin OutFormats THEN {<<"UnknownFormat", e.fmt>>}
     ELSE IF e.exc # "" THEN {<<"Constructible", e.exc>>}
     ELSE (IF ~Exact(e.fmt, e.bytes) THEN {<<"HonestLengths", "">>} ELSE {})
          \cup LET bad == {f \in ParseOut(e.fmt, e.bytes) : WrongIn(f, e.in)} IN
